@@ -230,6 +230,7 @@ func (x *Executor) heapHavoc(st *State, comp string) string {
 	if ax := x.u.heapTyping(comp, n); ax != "" {
 		x.u.emit("(assert " + ax + ")")
 	}
+	x.unreachableFresh(st, comp, n)
 	st.heap[comp] = n
 	x.recordWrite(comp)
 	return n
@@ -465,4 +466,28 @@ type incoming struct {
 	cond string
 	st   *State
 	from *ssa.BasicBlock
+}
+
+// unreachableFresh: objects the function allocated and whose address never escaped are not reachable
+// from the heap: no reference held in a havoced component version points into them.
+func (x *Executor) unreachableFresh(st *State, comp, n string) {
+	if len(st.fresh) == 0 {
+		return
+	}
+	sel, binders, refs := x.u.refOfComp(comp, n)
+	if len(refs) == 0 {
+		return
+	}
+	var frs []string
+	for r := range st.fresh {
+		frs = append(frs, r)
+	}
+	sort.Strings(frs)
+	var conj []string
+	for _, r := range frs {
+		for _, ref := range refs {
+			conj = append(conj, fmt.Sprintf("(not (= (refroot %s) %s))", ref, r))
+		}
+	}
+	x.u.emit(fmt.Sprintf("(assert (forall %s (! (and %s) :pattern (%s))))", binders, strings.Join(conj, " "), sel))
 }
